@@ -41,6 +41,7 @@ import (
 	"net"
 	"runtime/debug"
 	"strings"
+	"sync"
 	"testing"
 	"time"
 
@@ -66,7 +67,19 @@ type c14H2Case struct {
 	Eos    string       `json:"eos"`     // flag | empty | empty-pad<N> | trailers | trailers-<shape>
 	Hdrs   string       `json:"headers"` // shape of the HEADERS frames that open either direction
 	IO     int          `json:"io"`      // conn Read/Write piece size, 0 = a whole direction per call
+	// part P-h2-hpack: several exchanges one after the other on the connection (streams 1, 3, ...; 0 = one), all
+	// header blocks of a direction from one HPACK encoder, and a dynamic-table-size schedule of either encoder
+	// ("" none | "4096" | "65536" | "1048576" | "0" | "0+65536": SetMaxDynamicTableSize calls, i.e. the size
+	// updates that open the next header block, RFC 7541 section 6.3) applied before the header block HpackAt
+	// ("<exchange>h" headers, "<exchange>t" trailers; exchanges count from 1). The peer's SETTINGS frame
+	// (SETTINGS_HEADER_TABLE_SIZE = the largest size of the schedule) and its acknowledgement precede that block.
+	Streams   int    `json:"streams,omitempty"`
+	HpackReq  string `json:"hpack_req,omitempty"`
+	HpackResp string `json:"hpack_resp,omitempty"`
+	HpackAt   string `json:"hpack_at,omitempty"`
 }
+
+func (c *c14H2Case) scripted() bool { return c.Streams > 1 || c.HpackReq != "" || c.HpackResp != "" }
 
 func (c *c14H2Case) String() string {
 	b, _ := json.Marshal(c)
@@ -200,7 +213,49 @@ type c14H2Blocks struct{ reqHdr, reqTrailer, respHdr, respTrailer []byte }
 
 var c14H2BlockCache = map[c14Hdr]*c14H2Blocks{}
 
-// c14H2BlocksFor: the HPACK header blocks of an exchange. Each direction has its own
+func c14H2CommonFields(h c14Hdr) (common []string) {
+	if h.CT != "" {
+		common = append(common, "content-type", h.CT)
+	}
+	if h.EncKey != "" {
+		common = append(common, strings.ToLower(h.EncKey), h.Enc)
+	}
+	return common
+}
+
+func c14H2ReqFields(h c14Hdr, testName string) []string {
+	req := append([]string{":method", "POST", ":scheme", "http", ":authority", c14URL.Host, ":path", c14URL.Path}, c14H2CommonFields(h)...)
+	return append(req, "te", "trailers", strings.ToLower(testCaseNameHeader), testName)
+}
+
+func c14H2RespFields(h c14Hdr) []string {
+	return append([]string{":status", "200"}, c14H2CommonFields(h)...)
+}
+
+var (
+	c14H2ReqTrailerFields  = []string{"x-c14-trailer", "t"}
+	c14H2RespTrailerFields = []string{"grpc-status", "0", "x-c14-trailer", "t"}
+)
+
+func c14H2Encode(enc *hpack.Encoder, buf *bytes.Buffer, kv ...string) []byte {
+	buf.Reset()
+	for i := 0; i < len(kv); i += 2 {
+		if err := enc.WriteField(hpack.HeaderField{Name: kv[i], Value: kv[i+1]}); err != nil {
+			panic(err)
+		}
+	}
+	return append([]byte(nil), buf.Bytes()...)
+}
+
+// c14H2TestName: the test name of the i-th exchange on a connection (from 0); it tells the traces apart.
+func c14H2TestName(i int) string {
+	if i == 0 {
+		return "c14"
+	}
+	return fmt.Sprintf("c14-s%d", i+1)
+}
+
+// c14H2BlocksFor: the HPACK header blocks of a single exchange. Each direction has its own
 // encoder (and, in the conn under test, its own fresh decoder), headers first, trailers second.
 func c14H2BlocksFor(h c14Hdr) *c14H2Blocks {
 	key := h
@@ -208,65 +263,183 @@ func c14H2BlocksFor(h c14Hdr) *c14H2Blocks {
 	if b := c14H2BlockCache[key]; b != nil {
 		return b
 	}
-	encode := func(enc *hpack.Encoder, buf *bytes.Buffer, kv ...string) []byte {
-		buf.Reset()
-		for i := 0; i < len(kv); i += 2 {
-			if err := enc.WriteField(hpack.HeaderField{Name: kv[i], Value: kv[i+1]}); err != nil {
-				panic(err)
-			}
-		}
-		return append([]byte(nil), buf.Bytes()...)
-	}
-	var common []string
-	if h.CT != "" {
-		common = append(common, "content-type", h.CT)
-	}
-	if h.EncKey != "" {
-		common = append(common, strings.ToLower(h.EncKey), h.Enc)
-	}
 	b := &c14H2Blocks{}
 	var buf bytes.Buffer
 	enc := hpack.NewEncoder(&buf)
-	req := append([]string{":method", "POST", ":scheme", "http", ":authority", c14URL.Host, ":path", c14URL.Path}, common...)
-	req = append(req, "te", "trailers", strings.ToLower(testCaseNameHeader), "c14")
-	b.reqHdr = encode(enc, &buf, req...)
-	b.reqTrailer = encode(enc, &buf, "x-c14-trailer", "t")
+	b.reqHdr = c14H2Encode(enc, &buf, c14H2ReqFields(h, c14H2TestName(0))...)
+	b.reqTrailer = c14H2Encode(enc, &buf, c14H2ReqTrailerFields...)
 	var buf2 bytes.Buffer
 	enc = hpack.NewEncoder(&buf2)
-	b.respHdr = encode(enc, &buf2, append([]string{":status", "200"}, common...)...)
-	b.respTrailer = encode(enc, &buf2, "grpc-status", "0", "x-c14-trailer", "t")
+	b.respHdr = c14H2Encode(enc, &buf2, c14H2RespFields(h)...)
+	b.respTrailer = c14H2Encode(enc, &buf2, c14H2RespTrailerFields...)
 	c14H2BlockCache[key] = b
 	return b
 }
 
-// c14H2Direction renders one direction of the exchange (without preface / SETTINGS).
-func c14H2Direction(out []byte, c *c14H2Case, body, hdrBlock, trailerBlock []byte) []byte {
-	out = c14H2Headers(out, 1, hdrBlock, c.Hdrs, false)
+func c14H2TrailersEos(eos string) bool {
+	return eos == "trailers" || strings.HasPrefix(eos, "trailers-")
+}
+
+// c14H2Direction renders one direction of an exchange (without preface / SETTINGS) up to, but not including,
+// a trailers block.
+func c14H2Direction(out []byte, c *c14H2Case, stream uint32, body, hdrBlock []byte) []byte {
+	out = c14H2Headers(out, stream, hdrBlock, c.Hdrs, false)
 	pos := 0
 	for i, f := range c.Frames {
 		end := c.Eos == "flag" && i == len(c.Frames)-1
-		out = c14H2Data(out, 1, body[pos:pos+f.N], f.Pad, end)
+		out = c14H2Data(out, stream, body[pos:pos+f.N], f.Pad, end)
 		pos += f.N
 	}
 	if pos != len(body) {
 		panic("c14 harness: DATA frames do not add up to the body")
 	}
 	switch {
-	case c.Eos == "flag":
+	case c.Eos == "flag", c14H2TrailersEos(c.Eos):
 	case c.Eos == "empty":
-		out = c14H2Data(out, 1, nil, -1, true)
+		out = c14H2Data(out, stream, nil, -1, true)
 	case strings.HasPrefix(c.Eos, "empty-pad"):
 		pad := 0
 		fmt.Sscanf(c.Eos, "empty-pad%d", &pad)
-		out = c14H2Data(out, 1, nil, pad, true)
-	case c.Eos == "trailers":
-		out = c14H2Headers(out, 1, trailerBlock, "plain", true)
-	case strings.HasPrefix(c.Eos, "trailers-"):
-		out = c14H2Headers(out, 1, trailerBlock, strings.TrimPrefix(c.Eos, "trailers-"), true)
+		out = c14H2Data(out, stream, nil, pad, true)
 	default:
 		panic("c14 harness: unknown end-of-stream carrier " + c.Eos)
 	}
 	return out
+}
+
+// c14H2Trailers renders the trailers block that ends a direction (nothing unless the case asks for one).
+func c14H2Trailers(out []byte, c *c14H2Case, stream uint32, trailerBlock []byte) []byte {
+	switch {
+	case c.Eos == "trailers":
+		out = c14H2Headers(out, stream, trailerBlock, "plain", true)
+	case strings.HasPrefix(c.Eos, "trailers-"):
+		out = c14H2Headers(out, stream, trailerBlock, strings.TrimPrefix(c.Eos, "trailers-"), true)
+	}
+	return out
+}
+
+// c14H2Seg: bytes that travel in one direction before the other side speaks again.
+type c14H2Seg struct {
+	client bool
+	data   []byte
+}
+
+// c14H2Schedule parses a table-size schedule: the sizes in order and the largest of them.
+func c14H2Schedule(s string) (sizes []uint32, limit uint32) {
+	if s == "" {
+		return nil, 0
+	}
+	for _, part := range strings.Split(s, "+") {
+		var v uint32
+		if _, err := fmt.Sscanf(part, "%d", &v); err != nil {
+			panic("c14 harness: bad HPACK table-size schedule " + s)
+		}
+		sizes = append(sizes, v)
+		if v > limit {
+			limit = v
+		}
+	}
+	return sizes, limit
+}
+
+func c14H2Settings(out []byte, tableSize int64) []byte {
+	if tableSize < 0 {
+		return c14H2Raw(out, c14H2TypeSettings, 0, 0, nil)
+	}
+	var p [6]byte
+	binary.BigEndian.PutUint16(p[:2], 1) // SETTINGS_HEADER_TABLE_SIZE
+	binary.BigEndian.PutUint32(p[2:], uint32(tableSize))
+	return c14H2Raw(out, c14H2TypeSettings, 0, 0, p[:])
+}
+
+// c14H2Script renders the whole connection: who sends what, in order.
+func c14H2Script(c *c14H2Case, body []byte) []c14H2Seg {
+	if !c.scripted() {
+		// one exchange, the client's bytes and then the server's
+		blocks := c14H2BlocksFor(c.Hdr)
+		client := make([]byte, 0, 256+2*len(body))
+		client = append(client, c14H2Preface...)
+		client = c14H2Raw(client, c14H2TypeSettings, 0, 0, nil)
+		client = c14H2Direction(client, c, 1, body, blocks.reqHdr)
+		client = c14H2Trailers(client, c, 1, blocks.reqTrailer)
+		server := make([]byte, 0, 256+2*len(body))
+		server = c14H2Raw(server, c14H2TypeSettings, 0, 0, nil)
+		server = c14H2Direction(server, c, 1, body, blocks.respHdr)
+		server = c14H2Trailers(server, c, 1, blocks.respTrailer)
+		return []c14H2Seg{{true, client}, {false, server}}
+	}
+	var segs []c14H2Seg
+	add := func(client bool, fn func(out []byte) []byte) {
+		if n := len(segs); n == 0 || segs[n-1].client != client {
+			segs = append(segs, c14H2Seg{client: client})
+		}
+		last := &segs[len(segs)-1]
+		last.data = fn(last.data)
+	}
+	ack := func(out []byte) []byte { return c14H2Raw(out, c14H2TypeSettings, 0x1, 0, nil) }
+	reqSizes, reqLimit := c14H2Schedule(c.HpackReq)
+	respSizes, respLimit := c14H2Schedule(c.HpackResp)
+	at := c.HpackAt
+	if at == "" {
+		at = "1h"
+	}
+	var reqBuf, respBuf bytes.Buffer
+	reqEnc, respEnc := hpack.NewEncoder(&reqBuf), hpack.NewEncoder(&respBuf)
+	// before the header block at position pos of a direction: the receiving side announces the table size it
+	// allows (in its first SETTINGS frame if the block is the first of the connection), the sending side
+	// acknowledges and its encoder takes the new size(s) up
+	prepare := func(client bool, pos string, enc *hpack.Encoder, sizes []uint32, limit uint32) {
+		if pos != at || sizes == nil {
+			return
+		}
+		if pos != "1h" {
+			add(!client, func(out []byte) []byte { return c14H2Settings(out, int64(limit)) })
+			add(client, ack)
+		}
+		enc.SetMaxDynamicTableSizeLimit(limit)
+		for _, v := range sizes {
+			enc.SetMaxDynamicTableSize(v)
+		}
+	}
+	first := func(sizes []uint32, limit uint32) int64 {
+		if at == "1h" && sizes != nil {
+			return int64(limit)
+		}
+		return -1
+	}
+	// a server sends its SETTINGS as soon as the connection is accepted (x/net/http2 does, before it reads the preface)
+	add(false, func(out []byte) []byte { return c14H2Settings(out, first(reqSizes, reqLimit)) })
+	add(true, func(out []byte) []byte {
+		out = append(out, c14H2Preface...)
+		return ack(c14H2Settings(out, first(respSizes, respLimit)))
+	})
+	streams := c.Streams
+	if streams < 1 {
+		streams = 1
+	}
+	for i := 0; i < streams; i++ {
+		id := uint32(2*i + 1)
+		prepare(true, fmt.Sprintf("%dh", i+1), reqEnc, reqSizes, reqLimit)
+		block := c14H2Encode(reqEnc, &reqBuf, c14H2ReqFields(c.Hdr, c14H2TestName(i))...)
+		add(true, func(out []byte) []byte { return c14H2Direction(out, c, id, body, block) })
+		if c14H2TrailersEos(c.Eos) {
+			prepare(true, fmt.Sprintf("%dt", i+1), reqEnc, reqSizes, reqLimit)
+			block := c14H2Encode(reqEnc, &reqBuf, c14H2ReqTrailerFields...)
+			add(true, func(out []byte) []byte { return c14H2Trailers(out, c, id, block) })
+		}
+		if i == 0 {
+			add(false, ack) // of the client's first SETTINGS frame
+		}
+		prepare(false, fmt.Sprintf("%dh", i+1), respEnc, respSizes, respLimit)
+		block = c14H2Encode(respEnc, &respBuf, c14H2RespFields(c.Hdr)...)
+		add(false, func(out []byte) []byte { return c14H2Direction(out, c, id, body, block) })
+		if c14H2TrailersEos(c.Eos) {
+			prepare(false, fmt.Sprintf("%dt", i+1), respEnc, respSizes, respLimit)
+			block := c14H2Encode(respEnc, &respBuf, c14H2RespTrailerFields...)
+			add(false, func(out []byte) []byte { return c14H2Trailers(out, c, id, block) })
+		}
+	}
+	return segs
 }
 
 // ---------------------------------------------------------------------------
@@ -303,25 +476,34 @@ func (c *c14H2Conn) SetDeadline(time.Time) error      { return nil }
 func (c *c14H2Conn) SetReadDeadline(time.Time) error  { return nil }
 func (c *c14H2Conn) SetWriteDeadline(time.Time) error { return nil }
 
-type c14H2Obs struct {
+// c14H2Collector keeps every trace it is handed, in order.
+type c14H2Collector struct {
+	mu     sync.Mutex
+	traces []Trace
+}
+
+func (c *c14H2Collector) Complete(t Trace) {
+	c.mu.Lock()
+	defer c.mu.Unlock()
+	c.traces = append(c.traces, t)
+}
+
+type c14H2StreamObs struct {
 	Req, Resp []c14Ev
 	Completes int
-	Panic     string
+}
+
+type c14H2Obs struct {
+	S      []c14H2StreamObs // per exchange of the script, in order
+	Strays int              // traces that belong to none of them
+	Panic  string
 }
 
 var c14H2Buf [2048]byte
 
 func c14H2Run(c *c14H2Case, body []byte) (obs c14H2Obs) {
-	blocks := c14H2BlocksFor(c.Hdr)
-	client := make([]byte, 0, 256+2*len(body))
-	client = append(client, c14H2Preface...)
-	client = c14H2Raw(client, c14H2TypeSettings, 0, 0, nil)
-	client = c14H2Direction(client, c, body, blocks.reqHdr, blocks.reqTrailer)
-	server := make([]byte, 0, 256+2*len(body))
-	server = c14H2Raw(server, c14H2TypeSettings, 0, 0, nil)
-	server = c14H2Direction(server, c, body, blocks.respHdr, blocks.respTrailer)
-
-	coll := &c14Collector{}
+	segs := c14H2Script(c, body)
+	coll := &c14H2Collector{}
 	fake := &c14H2Conn{chunk: c.IO}
 	func() {
 		defer func() {
@@ -350,21 +532,40 @@ func c14H2Run(c *c14H2Case, body []byte) (obs c14H2Obs) {
 				data = data[n:]
 			}
 		}
-		if c.Server {
-			read(client)
-			write(server)
-		} else {
-			write(client)
-			read(server)
+		for _, seg := range segs {
+			if seg.client == c.Server {
+				read(seg.data)
+			} else {
+				write(seg.data)
+			}
 		}
 		_ = conn.Close()
 	}()
+	streams := c.Streams
+	if streams < 1 {
+		streams = 1
+	}
+	obs.S = make([]c14H2StreamObs, streams)
 	coll.mu.Lock()
-	obs.Completes = coll.n
-	tr := coll.trace
+	traces := coll.traces
 	coll.mu.Unlock()
-	obs.Req, _ = c14Events(&tr, true)
-	obs.Resp, _ = c14Events(&tr, false)
+	for k := range traces {
+		tr := &traces[k]
+		found := false
+		for i := range obs.S {
+			if tr.TestName != c14H2TestName(i) {
+				continue
+			}
+			found = true
+			if obs.S[i].Completes++; obs.S[i].Completes == 1 {
+				obs.S[i].Req, _ = c14Events(tr, true)
+				obs.S[i].Resp, _ = c14Events(tr, false)
+			}
+		}
+		if !found {
+			obs.Strays++
+		}
+	}
 	return obs
 }
 
@@ -377,12 +578,28 @@ func c14H2Judge(c *c14H2Case, body []byte, obs, canon *c14H2Obs) (out []c14Findi
 	if obs.Panic != "" {
 		out = append(out, c14Finding{"h2:panic", "the tracing conn panicked: " + obs.Panic})
 	}
+	if obs.Strays != 0 {
+		out = append(out, c14Finding{"h2:trace-delivered-twice", fmt.Sprintf("the collector received %d traces that belong to no exchange of the connection", obs.Strays)})
+	}
+	for i := range obs.S {
+		out = append(out, c14H2JudgeStream(c, body, i, len(obs.S), &obs.S[i], &canon.S[0])...)
+	}
+	return out
+}
+
+// c14H2JudgeStream judges the i-th of n exchanges on the connection; canon is what the same body gave as
+// the only exchange of a connection in the canonical framing.
+func c14H2JudgeStream(c *c14H2Case, body []byte, i, n int, obs, canon *c14H2StreamObs) (out []c14Finding) {
+	which := ""
+	if n > 1 {
+		which = fmt.Sprintf("exchange %d of %d on the connection (stream %d): ", i+1, n, 2*i+1)
+	}
 	switch {
 	case obs.Completes == 0:
-		out = append(out, c14Finding{"h2:trace-not-delivered", "the collector never received the trace"})
+		out = append(out, c14Finding{"h2:trace-not-delivered", which + "the collector never received the trace"})
 		return out
 	case obs.Completes > 1:
-		out = append(out, c14Finding{"h2:trace-delivered-twice", fmt.Sprintf("the collector received %d traces", obs.Completes)})
+		out = append(out, c14Finding{"h2:trace-delivered-twice", fmt.Sprintf("%sthe collector received %d traces", which, obs.Completes)})
 	}
 	for _, dir := range []string{"request", "response"} {
 		var side, ending string
@@ -400,11 +617,11 @@ func c14H2Judge(c *c14H2Case, body []byte, obs, canon *c14H2Obs) (out []c14Findi
 		cc := c14Case{Side: side, Hdr: c.Hdr, Ending: ending}
 		ref := c14Reference(side, c.Hdr, body)
 		for _, f := range c14JudgeEvents(&cc, ref, evs) {
-			out = append(out, c14Finding{"h2:" + dir + ":" + f.Key, fmt.Sprintf("%s body over the HTTP/2 conn tracer: %s\n  events: %s", dir, f.Detail, c14EvString(evs))})
+			out = append(out, c14Finding{"h2:" + dir + ":" + f.Key, fmt.Sprintf("%s%s body over the HTTP/2 conn tracer: %s\n  events: %s", which, dir, f.Detail, c14EvString(evs))})
 		}
 		if !c14SameEvents(base, evs) {
 			out = append(out, c14Finding{"h2:" + dir + ":events-depend-on-http2-framing",
-				fmt.Sprintf("%s body: events %s differ from %s obtained for the same bytes in one unpadded DATA frame", dir, c14EvString(evs), c14EvString(base))})
+				fmt.Sprintf("%s%s body: events %s differ from %s obtained for the same bytes in one unpadded DATA frame on a connection of its own", which, dir, c14EvString(evs), c14EvString(base))})
 		}
 	}
 	return out
@@ -583,7 +800,68 @@ func c14H2ForEach(thorough bool, fn func(c *c14H2Case, body []byte) bool) {
 			}
 		}
 	}
+
+	// P-h2-hpack: several exchanges on one connection, every header block of a direction from one HPACK
+	// encoder (later blocks refer to the dynamic table), and a table-size schedule per direction applied
+	// before the first block of the connection or before a later one
+	last := 2
+	hdrShapes := []string{"plain", "cont1"}
+	if thorough {
+		last = 3
+		hdrShapes = []string{"plain", "cont1", "padded7+cont2", "priority"}
+	}
+	for i := range main {
+		b := &main[i]
+		n := len(b.D)
+		bodyHex := hex.EncodeToString(b.D)
+		s := 8
+		if s > n {
+			s = n
+		}
+		k := 0
+		for _, eos := range []string{"flag", "trailers-cont1"} {
+			ats := []string{"1h", fmt.Sprintf("%dh", last)}
+			if thorough {
+				ats = []string{"1h", "2h", "3h"}
+				if c14H2TrailersEos(eos) {
+					ats = append(ats, "1t", "2t", "3t")
+				}
+			}
+			for _, hdrs := range hdrShapes {
+				for _, req := range c14H2Schedules {
+					for _, resp := range c14H2Schedules {
+						for _, at := range ats {
+							if req == "" && resp == "" && at != "1h" {
+								continue // nothing to place
+							}
+							ios := []int{(k % 2) * 3}
+							if thorough {
+								ios = []int{0, 3}
+							}
+							k++
+							for _, io := range ios {
+								for _, server := range []bool{true, false} {
+									if !ok {
+										return
+									}
+									c := c14H2Case{Stage: "h2", Part: "P-h2-hpack", Server: server, Hdr: b.Hdr, Body: bodyHex,
+										Frames: append(frames[:0], c14H2Frame{s, -1}, c14H2Frame{n - s, 7}), Eos: eos, Hdrs: hdrs, IO: io,
+										Streams: last, HpackReq: req, HpackResp: resp, HpackAt: at}
+									ok = fn(&c, b.D)
+								}
+							}
+						}
+					}
+				}
+			}
+		}
+	}
 }
+
+// c14H2Schedules: what an HPACK encoder may do to its dynamic table once the peer allows the size (RFC 7541
+// section 4.2): nothing; restate the default; grow to 64 KiB (what browsers advertise) or 1 MiB; drop the
+// table; drop it and grow.
+var c14H2Schedules = []string{"", "4096", "65536", "1048576", "0", "0+65536"}
 
 func c14H2Dedup(vals ...int) []int {
 	var out []int
@@ -625,8 +903,13 @@ func c14H2Outcome(c *c14H2Case, obs *c14H2Obs) string {
 		}
 		return
 	}
-	qd, _ := count(obs.Req)
-	rd, rs := count(obs.Resp)
+	last := &obs.S[len(obs.S)-1]
+	qd, _ := count(last.Req)
+	rd, rs := count(last.Resp)
+	if c.scripted() {
+		return fmt.Sprintf("h2 %s %s eos=%s, exchange %d with table-size updates req=%q resp=%q: req data=%d, resp data=%d eos=%d",
+			side, padded, eos, len(obs.S), c.HpackReq, c.HpackResp, qd, rd, rs)
+	}
 	return fmt.Sprintf("h2 %s %s eos=%s: req data=%d, resp data=%d eos=%d", side, padded, eos, qd, rd, rs)
 }
 
@@ -687,7 +970,8 @@ func c14H2Stage(r *rep.Report, deadline time.Time) bool {
 			cp := *c
 			cp.Frames = append([]c14H2Frame(nil), c.Frames...)
 			if len(findings) == 0 {
-				r.Sample(map[string]any{"case": cp, "request_events": c14EvString(obs.Req), "response_events": c14EvString(obs.Resp)})
+				last := &obs.S[len(obs.S)-1]
+				r.Sample(map[string]any{"case": cp, "request_events": c14EvString(last.Req), "response_events": c14EvString(last.Resp)})
 			}
 			for _, f := range findings {
 				r.Violate(f.Key, f.Detail+"\n  case: "+cp.String(), cp)
@@ -736,8 +1020,11 @@ func c14H2Replay(t *testing.T, r *rep.Report, in []byte) bool {
 	cc := c14H2Canonical(&c, len(body))
 	base := c14H2Run(&cc, body)
 	obs := c14H2Run(&c, body)
-	fmt.Printf("C14 replay: case %s\n  one unpadded DATA frame: request events %s, response events %s\n  this framing:            request events %s, response events %s\n  completes=%d panic=%q\n",
-		c.String(), c14EvString(base.Req), c14EvString(base.Resp), c14EvString(obs.Req), c14EvString(obs.Resp), obs.Completes, obs.Panic)
+	fmt.Printf("C14 replay: case %s\n  one unpadded DATA frame: request events %s, response events %s\n", c.String(), c14EvString(base.S[0].Req), c14EvString(base.S[0].Resp))
+	for i := range obs.S {
+		fmt.Printf("  this framing, exchange %d: request events %s, response events %s, completes=%d\n", i+1, c14EvString(obs.S[i].Req), c14EvString(obs.S[i].Resp), obs.S[i].Completes)
+	}
+	fmt.Printf("  stray traces=%d panic=%q\n", obs.Strays, obs.Panic)
 	r.Eval(1)
 	r.NonTrivial("")
 	r.Sample(c)
